@@ -769,12 +769,14 @@ func c05(c *Ctx) {
 		}
 	}
 	var b strings.Builder
-	b.WriteString(progHeader + "From Avo Require Import Model.Data Model.AsmSyntax.\n")
+	b.WriteString(progHeader + "From Avo Require Import Model.Data Model.AsmSyntax Proofs.SyntaxProofs.\n")
+	b.WriteString("(* hypothesis of printed_memory_reference_is_read_back for the translated register table *)\nLemma names_plain : forallb (fun p => plain (p_name p)) regs = true.\nProof. vm_compute. reflexivity. Qed.\nPrint Assumptions names_plain.\n")
 	fmt.Fprintf(&b, "Definition rcases : list render_case := %s.\n", cListNL(renderRows))
 	b.WriteString("Definition R_render_mismatch := Eval vm_compute in List.map (N.add 3000000) (idx_where (fun c => negb (render_agree regs c)) rcases).\nPrint R_render_mismatch.\n")
 	b.WriteString("Definition R_imm_violation := Eval vm_compute in List.map (N.add 3000000) (idx_where (fun c => negb (imm_text_ok c)) rcases).\nPrint R_imm_violation.\n")
 	o.WriteFile("Render.v", b.String())
 	o.Stage("Render.v")
+	o.Oblig("Render.names_plain")
 	o.ExpectEmpty("Render.v", "R_render_mismatch", "mismatch", "model of operand rendering (register names, memory references, constants) vs Op.Asm()")
 	o.ExpectEmpty("Render.v", "R_imm_violation", "violation", "a printed constant does not denote the constant's bytes when read as the assembler reads integer literals")
 	o.Plan.Rule = "instruction instances built through the real constructors: one per documented form of every constructor (three operand choices per form in thorough) with physical operands; every register view of every class through plain moves (incl. REX-only, high-byte, X16-31, K0-7; as base and index); boundary immediates of each signedness/width on 8/16/32/64-bit operations; addressing shapes (SP/BP/R12/R13 bases, disp8/disp32 boundaries, every scale incl. 3, narrow base registers). Each is printed with printer.NewGoAsm, assembled with `go tool asm`, dumped and decoded with x/arch x86asm (legacy/REX encodings) and its explicit operands compared; non-trivial = has operands; distinct by instruction text"
